@@ -7,58 +7,71 @@ Local Open Scope string_scope.
 Lemma is_nil_true {A} (l : list A) : is_nil l = true -> l = [].
 Proof. destruct l; [reflexivity|discriminate]. Qed.
 
-(* a callee the extraction treats as "touches / changes cached state only" reaches no write of
-   the data file and no write of the log *)
-Theorem silent_reaches_nothing : forall sites rd rl cls f c,
-  io_classification_ok sites rd rl cls = true ->
-  In (f, c) cls -> mem c silent_classes = true ->
-  lookup f rd = Some [] /\ lookup f rl = Some [].
+Lemma silent_not_lock c : mem c silent_classes = true -> mem c lock_classes = false.
 Proof.
-  intros sites rd rl cls f c Hok Hin Hc.
-  unfold io_classification_ok in Hok. apply andb_true_iff in Hok. destruct Hok as [Hcls _].
-  rewrite forallb_forall in Hcls. specialize (Hcls _ Hin). unfold class_ok in Hcls.
-  assert (Hl : mem c lock_classes = false).
-  { unfold mem, silent_classes, lock_classes in *. cbn [existsb] in *.
-    repeat match type of Hc with
-           | (_ || _) = true => apply orb_true_iff in Hc; destruct Hc as [Hc|Hc]
-           end; try discriminate;
-    apply String.eqb_eq in Hc; subst c; reflexivity. }
-  rewrite Hl in Hcls.
-  destruct (lookup f rd) as [d|]; [|discriminate].
-  destruct (lookup f rl) as [l|]; [|discriminate].
-  rewrite Hc in Hcls. apply andb_true_iff in Hcls. destruct Hcls as [Hd Hlg].
-  apply is_nil_true in Hd. apply is_nil_true in Hlg. subst. split; reflexivity.
+  intros Hc. unfold mem, silent_classes, lock_classes in *. cbn [existsb] in *.
+  repeat match type of Hc with
+         | (_ || _) = true => apply orb_true_iff in Hc; destruct Hc as [Hc|Hc]
+         end; try discriminate;
+  apply String.eqb_eq in Hc; subst c; reflexivity.
 Qed.
 
-(* the callee treated as the page write / header write reaches exactly that site and not the log *)
-Theorem writers_reach_exactly : forall sites rd rl cls f,
-  io_classification_ok sites rd rl cls = true ->
-  (In (f, "PageWrite") cls -> exists d, lookup f rd = Some d /\ list_eqb d [page_write_site] = true /\ lookup f rl = Some []) /\
-  (In (f, "HeaderWrite") cls -> exists d, lookup f rd = Some d /\ list_eqb d [header_write_site] = true /\ lookup f rl = Some []).
+(* a callee the extraction treats as "touches / changes cached state only" reaches no write of
+   the data file, no write of the log and no operation on the lock *)
+Theorem silent_reaches_nothing : forall sites rd rl rk cls f c,
+  io_classification_ok sites rd rl rk cls = true ->
+  In (f, c) cls -> mem c silent_classes = true ->
+  lookup f rd = Some [] /\ lookup f rl = Some [] /\ lookup f rk = Some [].
 Proof.
-  intros sites rd rl cls f Hok.
+  intros sites rd rl rk cls f c Hok Hin Hc.
+  unfold io_classification_ok in Hok. apply andb_true_iff in Hok. destruct Hok as [Hcls _].
+  rewrite forallb_forall in Hcls. specialize (Hcls _ Hin). unfold class_ok in Hcls.
+  rewrite (silent_not_lock c Hc) in Hcls.
+  destruct (lookup f rd) as [d|]; [|discriminate].
+  destruct (lookup f rl) as [l|]; [|discriminate].
+  destruct (lookup f rk) as [k|]; [|discriminate].
+  rewrite Hc in Hcls. apply andb_true_iff in Hcls. destruct Hcls as [Hdl Hk].
+  apply andb_true_iff in Hdl. destruct Hdl as [Hd Hlg].
+  apply is_nil_true in Hd. apply is_nil_true in Hlg. apply is_nil_true in Hk. subst. repeat split; reflexivity.
+Qed.
+
+(* the callee treated as the page write / header write reaches exactly that site, not the log, not the lock *)
+Theorem writers_reach_exactly : forall sites rd rl rk cls f,
+  io_classification_ok sites rd rl rk cls = true ->
+  (In (f, "PageWrite") cls -> exists d, lookup f rd = Some d /\ list_eqb d [page_write_site] = true /\
+                                        lookup f rl = Some [] /\ lookup f rk = Some []) /\
+  (In (f, "HeaderWrite") cls -> exists d, lookup f rd = Some d /\ list_eqb d [header_write_site] = true /\
+                                          lookup f rl = Some [] /\ lookup f rk = Some []).
+Proof.
+  intros sites rd rl rk cls f Hok.
   unfold io_classification_ok in Hok. apply andb_true_iff in Hok. destruct Hok as [Hcls _].
   rewrite forallb_forall in Hcls.
   split; intro Hin; specialize (Hcls _ Hin); unfold class_ok in Hcls; cbn in Hcls;
     destruct (lookup f rd) as [d|]; try discriminate;
     destruct (lookup f rl) as [l|]; try discriminate;
-    apply andb_true_iff in Hcls; destruct Hcls as [Hd Hl]; apply is_nil_true in Hl; subst l;
+    destruct (lookup f rk) as [k|]; try discriminate;
+    apply andb_true_iff in Hcls; destruct Hcls as [Hdl Hk];
+    apply andb_true_iff in Hdl; destruct Hdl as [Hd Hl];
+    apply is_nil_true in Hl; apply is_nil_true in Hk; subst l k;
     exists d; auto.
 Qed.
 
-(* every write through a file handle anywhere in the package is inside a function of the matching class *)
-Theorem every_write_site_is_classified : forall sites rd rl cls f m t,
-  io_classification_ok sites rd rl cls = true ->
+(* every write through a file handle and every lock operation anywhere in the package is inside a
+   function of the matching class *)
+Theorem every_write_site_is_classified : forall sites rd rl rk cls f m t,
+  io_classification_ok sites rd rl rk cls = true ->
   In (f, m, t) sites -> mem m read_only_methods = false ->
   exists c, lookup f cls = Some c /\
-            (c = "PageWrite" \/ c = "HeaderWrite" \/ c = "LogAppend").
+            (c = "PageWrite" \/ c = "HeaderWrite" \/ c = "LogAppend" \/ (c = "inlined" /\ t = "lock")).
 Proof.
-  intros sites rd rl cls f m t Hok Hin Hm.
+  intros sites rd rl rk cls f m t Hok Hin Hm.
   unfold io_classification_ok in Hok. apply andb_true_iff in Hok. destruct Hok as [_ Hs].
   rewrite forallb_forall in Hs. specialize (Hs _ Hin). unfold site_ok in Hs. rewrite Hm in Hs.
   destruct (lookup f cls) as [c|]; [|discriminate]. exists c. split; [reflexivity|].
-  destruct (String.eqb t "data").
+  destruct (String.eqb t "data") eqn:Et.
   - apply orb_true_iff in Hs. destruct Hs as [Hs|Hs]; apply andb_true_iff in Hs; destruct Hs as [Hc _];
       apply String.eqb_eq in Hc; auto.
-  - apply andb_true_iff in Hs. destruct Hs as [Hc _]. apply String.eqb_eq in Hc. auto.
+  - destruct (String.eqb t "lock") eqn:Ek.
+    + apply String.eqb_eq in Hs. apply String.eqb_eq in Ek. auto 6.
+    + apply andb_true_iff in Hs. destruct Hs as [Hc _]. apply String.eqb_eq in Hc. auto.
 Qed.
